@@ -121,6 +121,14 @@ func runC11(r *simrt.Run) {
 	wl.MaxOps = 2 + t.Choose(5)
 	wl.Mix = nomsim.Mix{Transfer: 2, Receive: 3, Flow: 10, RandomCall: 2, Spork: 1}
 	rewardFlows := []string{"collect-reward", "update-contract", "stake", "cancel-stake", "delegate", "undelegate", "register-sentinel", "deposit-qsr", "liquidity-stake", "register-pillar", "revoke-pillar", "update-pillar"}
+	if t.Choose(3) != 0 {
+		// pillars and sentinels leave in the middle of epochs
+		w.ShortRevokeWindows(int64(60*(1+t.Choose(8))), int64(60*(1+t.Choose(6))), int64(60*(1+t.Choose(8))), int64(60*(1+t.Choose(6))))
+		rewardFlows = append(rewardFlows, "sentinel-lifecycle", "sentinel-lifecycle", "sentinel-lifecycle", "revoke-pillar", "pillar-burst")
+		r.Probe("knob-short-revoke-windows")
+	}
+	// some nodes answer consensus queries (all epochs incl. the running one) while the chain grows
+	readers := t.Choose(4) // 0 nobody, 1 node a, 2 node b, 3 both
 	st := &rewardState{lastEpoch: map[types.Address]int64{}, history: map[types.Address]map[uint64]map[types.Address][2]*big.Int{}, deposit: map[types.Address]map[types.Address][2]*big.Int{}}
 	for _, c := range rewardContracts {
 		st.lastEpoch[c] = lastEpochOf(a.Chain.GetFrontierMomentumStore(), c)
@@ -327,6 +335,14 @@ func runC11(r *simrt.Run) {
 			}
 			w.StepSlot()
 			w.Net.Flush()
+			if readers != 0 && t.Choose(3) == 0 {
+				for i, n := range []*simnode.Node{a, b} {
+					if readers&(1<<i) != 0 {
+						_ = consensusView(n, 2, 2)
+						r.Probe("consensus-queries-while-running")
+					}
+				}
+			}
 			if a.Frontier().Hash != b.Frontier().Hash {
 				if a.Height() >= b.Height() {
 					w.Net.SyncFrom(a, b)
